@@ -272,6 +272,25 @@ impl Prop for C05 {
             ex.fail(format!("c05-panic|{}", panic_signature(p)), format!("run_on panicked: {}", o.result.brief()));
             return ex;
         }
+        let over_limit = c.cmds.iter().any(|sc| sc.cmd.payload_len_hint() > (1 << 26));
+        if over_limit {
+            ex.class("request-beyond-the-advertised-max_allowed_packet");
+        }
+        if over_limit && o.result.is_err() {
+            // a server may end the connection over a request larger than it said it takes (MySQL
+            // does); what it sent until then is numbered like everything else
+            ex.class("over-limit-request-ended-the-connection");
+            let mut all = vec![ReplyKind::OkOrErr];
+            all.extend(kinds.iter().cloned());
+            let n = complete_replies(&o.out, &all).unwrap_or(0);
+            let mut cc = c.clone();
+            cc.cmds.truncate(n.saturating_sub(1));
+            let d2 = decode_output(&o.out, &kinds[..n.saturating_sub(1).min(kinds.len())]);
+            if let Err(m) = check_sequence_ids(&cc, &d2) {
+                ex.fail("c05-sequence", m);
+            }
+            return ex;
+        }
         if !o.result.is_ok() {
             ex.fail("c05-run-result", format!("run_on returned {}", o.result.brief()));
         }
